@@ -885,15 +885,40 @@ _datetime_smap = {
 }
 
 
-def _file_to_iter(f):
-    try:
-        data = f.read(8192)
-        while len(data) > 0:
-            yield data
-            data = f.read(8192)
+class _file_to_iter(object):
+    """Iterates over the contents of a file in 8k blocks and closes it when
+    done, when reading fails or when ``close()`` is called -- also when that
+    happens before the first block was asked for, which the ``finally`` block
+    of a generator would miss."""
 
-    finally:
-        f.close()
+    def __init__(self, f):
+        self.__f = f
+
+    def __iter__(self):
+        return self
+
+    def __next__(self):
+        if self.__f is None:
+            raise StopIteration()
+
+        try:
+            data = self.__f.read(8192)
+        except BaseException:
+            self.close()
+            raise
+
+        if len(data) == 0:
+            self.close()
+            raise StopIteration()
+
+        return data
+
+    next = __next__  # python 2
+
+    def close(self):
+        f, self.__f = self.__f, None
+        if f is not None:
+            f.close()
 
 
 META_ATTR = ['nullable', 'default_factory']
